@@ -43,6 +43,8 @@ Fixpoint t_del (t : table) (x : name) : table :=
 (* Go map assignment: one binding per key *)
 Definition t_set (t : table) (x : name) (v : value) : table := (x, v) :: t_del t x.
 
+Definition t_empty : table := [].
+
 (* One observable event: the tag of the operation that produced it, and
    Some v (a read that yielded v / an unset that succeeded, v = 0) or None (error). *)
 Definition event := (N * option value)%type.
@@ -92,7 +94,7 @@ Definition set_globals (s : state) (g : table) : state :=
 
 (* Fork(F_FUNCTION): NewVariables *)
 Definition push (s : state) : state :=
-  {| globals := globals s; cur := []; callers := cur s :: callers s |}.
+  {| globals := globals s; cur := t_empty; callers := cur s :: callers s |}.
 (* return from the call: the caller's process still points at its own table *)
 Definition pop (s : state) : state :=
   match callers s with
@@ -122,7 +124,7 @@ Fixpoint step (o : op) (s : state) : state * trace :=
 
 Definition run_state (ops : list op) (s : state) : state * trace := seq_ops step ops s.
 
-Definition init_state : state := {| globals := []; cur := []; callers := [] |}.
+Definition init_state : state := {| globals := t_empty; cur := t_empty; callers := [] |}.
 
 (* what the harness observes: the sequence of tagged results on stdout *)
 Definition run (ops : list op) : trace := snd (run_state ops init_state).
